@@ -493,8 +493,108 @@ def plan(tier):
     return out
 
 
+# ---------------------------------------------------------------------------
+# Termination with real threads, real files and the kernel-copy path: the environment answer enumerated here is how
+# much of a source data file is still there when the save runs (truncated after the model was loaded).
+
+TS_SIZES = [9, 9, 9]
+
+
+def _ts_run(truncate_to, workers, shard, timeout=30):
+    """Returns (outcome, violations). Runs in a forked child killed by an alarm if it does not finish."""
+    import signal
+
+    root = common.scratch_dir("c09ts")
+    bad = []
+    try:
+        src = os.path.join(root, "src")
+        os.makedirs(src)
+        total = sum(TS_SIZES)
+        with open(os.path.join(src, "weights.bin"), "wb") as f:
+            for i, n in enumerate(TS_SIZES):
+                f.write(bytes([65 + i]) * n)
+        tensors, off = [], 0
+        for i, n in enumerate(TS_SIZES):
+            tensors.append(ir.ExternalTensor("weights.bin", off, n, ir.DataType.UINT8, shape=ir.Shape([n]), name=f"t{i}", base_dir=src))
+            off += n
+        os.truncate(os.path.join(src, "weights.bin"), truncate_to)
+        out = os.path.join(root, "out")
+        os.makedirs(out)
+        rfd, wfd = os.pipe()
+        pid = os.fork()
+        if pid == 0:
+            try:
+                os.close(rfd)
+                signal.signal(signal.SIGALRM, signal.SIG_DFL)
+                signal.alarm(timeout)
+                try:
+                    if shard:
+                        _ts_save_sharded(tensors, out, dict(max_workers=workers, max_shard_size_bytes=shard))
+                    else:
+                        ed.convert_tensors_to_external(tensors, out, "w.data", max_workers=workers)
+                    code = b"ok"
+                except BaseException as e:  # noqa: BLE001
+                    code = f"raised:{type(e).__name__}".encode()
+                os.write(wfd, code)
+            finally:
+                os._exit(0)
+        os.close(wfd)
+        outcome = b""
+        while True:
+            chunk = os.read(rfd, 4096)
+            if not chunk:
+                break
+            outcome += chunk
+        os.close(rfd)
+        _, status = os.waitpid(pid, 0)
+        outcome = outcome.decode()
+        if not outcome:
+            outcome = "killed_by_watchdog" if os.WIFSIGNALED(status) else "child_died"
+            bad.append(("save_does_not_terminate", f"truncate_to={truncate_to} workers={workers} shard={shard}: no result after {timeout}s"))
+        elif outcome == "ok" and truncate_to < total:
+            data = b"".join(open(os.path.join(out, fn), "rb").read() for fn in sorted(os.listdir(out)))
+            want = b"".join(bytes([65 + i]) * n for i, n in enumerate(TS_SIZES))
+            if data != want:
+                bad.append(("save_succeeds_with_bytes_the_source_does_not_hold", f"truncate_to={truncate_to} workers={workers} shard={shard}: wrote {len(data)} bytes"))
+    finally:
+        shutil.rmtree(root, ignore_errors=True)
+    return outcome, bad
+
+
+def _ts_save_sharded(tensors, out, kw):
+    vals = [ir.Value(name=t.name, const_value=t, shape=t.shape, type=ir.TensorType(t.dtype)) for t in tensors]
+    x = ir.Value(name="x", shape=ir.Shape([1]), type=ir.TensorType(ir.DataType.UINT8))
+    n = ir.Node("", "Identity", [x], name="n")
+    n.outputs[0].name = "y"
+    m = ir.Model(ir.Graph([x], [n.outputs[0]], nodes=[n], initializers=vals, name="g", opset_imports={"": 20}), ir_version=10)
+    ir.save(m, os.path.join(out, "m.onnx"), external_data="w.data", size_threshold_bytes=0, **kw)
+
+
+def _ts_work(task):
+    workers, shard, tier = task
+    total = sum(TS_SIZES)
+    cuts = range(0, total + 1) if tier == "thorough" else sorted({0, 1, 8, 9, 10, 17, 18, 19, 26, 27})
+    found = {}
+    outcomes = {}
+    n = 0
+    for cut in cuts:
+        n += 1
+        outcome, bad = _ts_run(cut, workers, shard)
+        outcomes[outcome] = outcomes.get(outcome, 0) + 1
+        for clause, detail in bad:
+            found.setdefault(f"truncated_source[workers={workers},shard={shard}]|{clause}", {"clause": clause, "detail": detail, "truncated_source": [cut, workers, shard]})
+    return (workers, shard), n, outcomes, found
+
+
 def main(tier):
     r = common.Run("C09", "model_checking", tier)
+    ts = common.pmap(_ts_work, [(w, sh, tier) for w in (None, 2, 3) for sh in (None, 10)], chunksize=1)
+    ts_runs = 0
+    for (w, sh), n, outcomes, found in ts:
+        common.eprint(f"  [C09] truncated_source workers={w} shard={sh}: cuts={n} outcomes={outcomes} violations={sorted(found)}")
+        ts_runs += n
+        for key, f in found.items():
+            r.violation(key, f"{f['clause']}: {f['detail']}", {"engine": "E4-free", "truncated_source": f["truncated_source"], "oracle": f["clause"], "detail": f["detail"]})
     total_exec = total_points = 0
     per_cfg = []
     all_orders = 0
@@ -529,7 +629,7 @@ def main(tier):
         "states": total_exec, "transitions": total_points, "traces_validated_against_impl": total_exec,
         "evaluations": total_exec, "distinct_nontrivial": all_orders,
         "rule": "a case is one complete schedule of the real writer code; distinct_nontrivial = distinct callback orders observed summed over configurations (>1 per configuration proves real interleaving)",
-        "exhaustive": True, "bound": per_cfg,
+        "exhaustive": True, "bound": per_cfg, "truncated_source_runs": ts_runs,
     })
     r.assumptions += [
         "scheduling points at every lock/condition/future/queue/executor operation plus harness points inside tensor materialisation, tensor write and callback; code between points is atomic",
@@ -541,6 +641,11 @@ def main(tier):
 
 
 def replay(obj):
+    if obj.get("truncated_source"):
+        cut, w, sh = obj["truncated_source"]
+        outcome, bad = _ts_run(cut, w, sh)
+        hit = [b for b in bad if b[0] == obj["oracle"]]
+        return (not hit), [outcome] + hit
     cfg = obj["config"]
     root = common.scratch_dir("c09")
     try:
